@@ -214,7 +214,7 @@ theorem gate_eq (self : Trainer σ α ε ν) (u : TUnit σ α ε ν) :
   cases u.cell.training <;> cases self.training <;> cases u.cell.updater.isSome <;> rfl
 
 theorem cells_gate_eq (cells : Option (List String)) (u : TUnit σ α ε ν) :
-    (match cells with | some cells => (!(strIn u.name cells)) | none => false) = !selected cells u := by
+    (Option.elim cells false (fun cells => (!(strIn u.name cells)))) = !selected cells u := by
   unfold selected strIn
   cases cells <;> rfl
 
@@ -447,4 +447,488 @@ theorem gen_kernel_forward (self : Trainer (KState ℝ κ) ℝ (Option ℝ) ν)
           recSub, recZip_lift, tdeltaU_lift, hk1', hk2', pointwise_lift, h5, kernel_parts_lift,
           setattr_active self u ha, pure, Except.pure]
         rfl
+
+/-! ### the three-factor rules: `DelayAdjustedMSTDP.forward`, `DelayAdjustedMSTDPD.forward` -/
+
+theorem zipWith_mul_eq (a b : List ℝ) : List.zipWith (· * ·) a b = (a.zip b).map fun x => x.1 * x.2 := by
+  induction a generalizing b with
+  | nil => simp
+  | cons x a ih => cases b <;> simp_all
+
+theorem mapM_map_except {α β γ : Type} (f : β → Except Err γ) (g : α → β) (l : List α) :
+    (l.map g).mapM f = l.mapM (fun a => f (g a)) := by
+  induction l with
+  | nil => rfl
+  | cons a l ih => simp [List.mapM_cons, ih]
+
+theorem filter_range_succ (q : ℕ → Bool) (n : ℕ) :
+    (List.range (n + 1)).filter q
+      = (if q 0 then [0] else []) ++ ((List.range n).filter (fun i => q (i + 1))).map (· + 1) := by
+  rw [List.range_succ_eq_map, List.filter_cons, List.filter_map]
+  cases q 0 <;> simp [Function.comp_def]
+
+/-- `x[torch.argwhere(p(s)).view(-1)]` selects, in batch order, the samples whose signal satisfies `p` — the model's
+`pick` -/
+theorem bIndex_argwhere {α β : Type} (p : β → Bool) (s : List β) (x : List α) (hl : x.length = s.length) :
+    bIndex x ((List.range s.length).filter fun i => match s[i]? with | some b => p b | none => false)
+      = .ok ((x.zip s).filterMap fun xs => if p xs.2 then some xs.1 else none) := by
+  induction s generalizing x with
+  | nil =>
+    cases x with
+    | nil => rfl
+    | cons a x => simp at hl
+  | cons b s ih =>
+    cases x with
+    | nil => simp at hl
+    | cons a x =>
+      have hl' : x.length = s.length := by simpa using hl
+      have ih' := ih x hl'
+      unfold bIndex at ih' ⊢
+      rw [List.length_cons, filter_range_succ]
+      simp only [List.getElem?_cons_zero, List.getElem?_cons_succ, List.zip_cons_cons, List.filterMap_cons]
+      rcases Bool.eq_false_or_eq_true (p b) with hp | hp
+      · simp only [hp, if_true, List.cons_append, List.nil_append, List.mapM_cons, List.getElem?_cons_zero,
+          mapM_map_except, List.getElem?_cons_succ, ih', bind, Except.bind, pure, Except.pure]
+      · simp only [hp, Bool.false_eq_true, if_false, List.nil_append, mapM_map_except, List.getElem?_cons_succ, ih']
+
+theorem argwhereGe0_pick (sig x : List ℝ) (hl : x.length = sig.length) :
+    bIndex x (argwhereGe0 sig) = .ok (pick (fun s => decide (s ≥ 0)) sig x) := by
+  unfold argwhereGe0 pick
+  exact bIndex_argwhere (fun s => decide (s ≥ 0)) sig x hl
+
+theorem argwhereLt0_pick (sig x : List ℝ) (hl : x.length = sig.length) :
+    bIndex x (argwhereLt0 sig) = .ok (pick (fun s => decide (s < 0)) sig x) := by
+  unfold argwhereLt0 pick
+  exact bIndex_argwhere (fun s => decide (s < 0)) sig x hl
+
+/-- `state.batchreduce(d, 0) if d.numel() else None` is the model's `redOpt` -/
+theorem redOpt_eq (r : Red) (xs : List ℝ) :
+    (if (decide ((bNumel xs) ≠ 0)) = true then (some (callReduce0 (reduce r) xs)) else none) = redOpt r xs := by
+  unfold redOpt bNumel callReduce0
+  cases xs <;> simp
+
+/-- `dpost * scaledsignal` with `scaledsignal = (signal * scale).abs().view(-1, 1, …)`: the model's per-sample scaling -/
+theorem scaled_eq (x y sig : List ℝ) (scale : ℝ) (hl : x.length = sig.length) :
+    bMulCol x (viewAsColumnOf (bAbs (bMulScalar sig scale)) y)
+      = .ok ((x.zip (sig.map fun s => absT (s * scale))).map fun y => y.1 * y.2) := by
+  unfold bMulCol viewAsColumnOf bAbs bMulScalar
+  simp only [List.length_map, hl, if_true, List.map_map, zipWith_mul_eq]
+  rfl
+
+theorem scaled_length (x sig : List ℝ) (scale : ℝ) (hl : x.length = sig.length) :
+    ((x.zip (sig.map fun s => absT (s * scale))).map fun y => y.1 * y.2).length = sig.length := by
+  simp [hl]
+
+/-- the pair assigned by the tensor-signal branch of `DelayAdjustedMSTDP` is the model's `signalSplit` -/
+theorem signal_split_eq (lrPos lrNeg : ℝ) (r : Red) (sig : List ℝ) (scale : ℝ) (dpost dpre : List ℝ)
+    (h1 : dpost.length = sig.length) (h2 : dpre.length = sig.length) :
+    signalSplit lrPos lrNeg r sig scale dpost dpre =
+      (let ss := sig.map fun s => absT (s * scale)
+       let dpost := (dpost.zip ss).map fun x => x.1 * x.2
+       let dpre := (dpre.zip ss).map fun x => x.1 * x.2
+       let d := routeT (decide (lrPos ≥ 0)) (decide (lrNeg ≥ 0))
+         (pick (fun s => decide (s ≥ 0)) sig dpost) (pick (fun s => decide (s < 0)) sig dpost)
+         (pick (fun s => decide (s ≥ 0)) sig dpre) (pick (fun s => decide (s < 0)) sig dpre)
+       (redOpt r d.1, redOpt r d.2)) := rfl
+
+/-- the reward of a call: a Python float or one value per batch sample -/
+noncomputable def damParts (c : DCfg) (r : Red) (d : ℝ) (bt : List (List Syn)) (signal : Signal ℝ) (scale : ℝ) (t : ℕ) :
+    Split.Parts ℝ :=
+  match signal with
+  | .float sg => damScalar c r d bt sg scale t
+  | .tensor sig => damTensor c r d bt sig scale t
+
+noncomputable def damdParts (c : DCfg) (r : Red) (d : ℝ) (bt : List (List Syn)) (signal : Signal ℝ) (scale : ℝ) (t : ℕ) :
+    Split.Parts ℝ :=
+  match signal with
+  | .float sg => damdScalar c r d bt sg scale t
+  | .tensor sig => damdTensor c r d bt sig scale t
+
+/-- a per-sample reward has one entry per batch sample of every trained unit -/
+def SignalFits (signal : Signal ℝ) (n : ℕ) : Prop :=
+  match signal with
+  | .float _ => True
+  | .tensor sig => sig.length = n
+
+/-- **`DelayAdjustedMSTDP.forward`**: every selected active unit gets `cell.updater.weight = damScalar …` (float reward:
+scaled AFTER the batch reduction, routed by the signs of `lr * signal`) or `damTensor …` (per-sample reward: scaled
+per sample, samples partitioned by the sign of their reward, joined by the signs of the rates, reduced, `None` for an
+empty part) -/
+theorem gen_damstdp_forward (self : Trainer (DAState ℝ) ℝ (Option ℝ) ν) (signal : Signal ℝ) (scale : ℝ)
+    (cells : Option (List String))
+    (c : DAUnit ν → DCfg) (r : DAUnit ν → Red) (d : DAUnit ν → ℝ) (bt : DAUnit ν → List (List Syn)) (t : ℕ)
+    (h : ∀ u ∈ self.units, (selected cells u && active self u) = true →
+      DAAbs u (c u) (r u) (d u) (bt u) t ∧ SignalFits signal (bt u).length) :
+    DelayAdjustedMSTDP_forward self signal scale cells
+      = .ok (stepped self (fun u => selected cells u && active self u)
+          (fun u => ("weight", damParts (c u) (r u) (d u) (bt u) signal scale t)), ()) := by
+  unfold DelayAdjustedMSTDP_forward
+  rw [forNamedUnits_ok self () _ (fun u => if (selected cells u && active self u) then
+      assign u.cell ("weight", damParts (c u) (r u) (d u) (bt u) signal scale t) else u.cell)]
+  · rfl
+  · intro u hu
+    rw [cells_gate_eq, gate_eq]
+    cases hs : selected cells u with
+    | false => rfl
+    | true =>
+    cases ha : active self u with
+    | false => rfl
+    | true =>
+      obtain ⟨⟨⟨mpost, hm1, hp1⟩, ⟨mpre, hm2, hp2⟩, hd, h1, h2, h3, h4, h5⟩, hfit⟩ := h u hu (by simp [hs, ha])
+      simp only [Bool.not_true, Bool.false_eq_true, if_false, if_true, Bool.and_self, hm1, hm2, hp1, hp2, hd, bind,
+        Except.bind, recSub, recZip_lift, unsqueezeLast, tdelta_lift, term_ge_lift, term_lt_lift, h5, nansum_lift,
+        h1, h2, h3, h4]
+      cases signal with
+      | float sg =>
+        simp only [damParts, damScalar, partial_, daPosTerm, daNegTerm, callReduce0]
+        cases decide ((c u).lrPos * sg ≥ 0) <;> cases decide ((c u).lrNeg * sg ≥ 0) <;>
+          simp only [setattr_active self u ha, route, pure, Except.pure] <;> rfl
+      | tensor sig =>
+        have hl : ∀ g : Syn → Option ℝ, (List.map (fun f => nansum (List.map g f)) (bt u)).length = sig.length := by
+          intro g; rw [List.length_map]; exact hfit.symm
+        simp only [scaled_eq _ _ sig scale (hl _), argwhereGe0_pick _ _ (scaled_length _ sig scale (hl _)),
+          argwhereLt0_pick _ _ (scaled_length _ sig scale (hl _)), redOpt_eq]
+        simp only [damParts, damTensor, signal_split_eq _ _ _ _ _ _ _ (hl _) (hl _), partialB, daPosTerm, daNegTerm]
+        cases decide ((c u).lrPos ≥ 0) <;> cases decide ((c u).lrNeg ≥ 0) <;>
+          simp only [setattr_active self u ha, routeT, torchCat0, redOpt_eq, pure, Except.pure] <;> rfl
+
+/-- **`DelayAdjustedMSTDPD.forward`**: every selected active unit gets `cell.updater.delay = damdScalar …` /
+`damdTensor …` (the causal branch carries `lr_neg`, `tc_neg`; subjects `(lr_neg * signal < 0, lr_pos * signal < 0)` /
+`(lr_neg < 0, lr_pos < 0)`) -/
+theorem gen_damstdpd_forward (self : Trainer (DAState ℝ) ℝ (Option ℝ) ν) (signal : Signal ℝ) (scale : ℝ)
+    (cells : Option (List String))
+    (c : DAUnit ν → DCfg) (r : DAUnit ν → Red) (d : DAUnit ν → ℝ) (bt : DAUnit ν → List (List Syn)) (t : ℕ)
+    (h : ∀ u ∈ self.units, (selected cells u && active self u) = true →
+      DAAbs u (c u) (r u) (d u) (bt u) t ∧ SignalFits signal (bt u).length) :
+    DelayAdjustedMSTDPD_forward self signal scale cells
+      = .ok (stepped self (fun u => selected cells u && active self u)
+          (fun u => ("delay", damdParts (c u) (r u) (d u) (bt u) signal scale t)), ()) := by
+  unfold DelayAdjustedMSTDPD_forward
+  rw [forNamedUnits_ok self () _ (fun u => if (selected cells u && active self u) then
+      assign u.cell ("delay", damdParts (c u) (r u) (d u) (bt u) signal scale t) else u.cell)]
+  · rfl
+  · intro u hu
+    rw [cells_gate_eq, gate_eq]
+    cases hs : selected cells u with
+    | false => rfl
+    | true =>
+    cases ha : active self u with
+    | false => rfl
+    | true =>
+      obtain ⟨⟨⟨mpost, hm1, hp1⟩, ⟨mpre, hm2, hp2⟩, hd, h1, h2, h3, h4, h5⟩, hfit⟩ := h u hu (by simp [hs, ha])
+      simp only [Bool.not_true, Bool.false_eq_true, if_false, if_true, Bool.and_self, hm1, hm2, hp1, hp2, hd, bind,
+        Except.bind, recSub, recZip_lift, unsqueezeLast, tdelta_lift, term_ge_lift, term_lt_lift, h5, nansum_lift,
+        h1, h2, h3, h4]
+      cases signal with
+      | float sg =>
+        simp only [damdParts, damdScalar, partial_, dadPosTerm, dadNegTerm, callReduce0]
+        cases decide ((c u).lrNeg * sg < 0) <;> cases decide ((c u).lrPos * sg < 0) <;>
+          simp only [setattr_active self u ha, routeD, pure, Except.pure] <;> rfl
+      | tensor sig =>
+        have hl : ∀ g : Syn → Option ℝ, (List.map (fun f => nansum (List.map g f)) (bt u)).length = sig.length := by
+          intro g; rw [List.length_map]; exact hfit.symm
+        simp only [scaled_eq _ _ sig scale (hl _), argwhereGe0_pick _ _ (scaled_length _ sig scale (hl _)),
+          argwhereLt0_pick _ _ (scaled_length _ sig scale (hl _)), redOpt_eq]
+        simp only [damdParts, damdTensor, partialB, dadPosTerm, dadNegTerm]
+        cases decide ((c u).lrNeg < 0) <;> cases decide ((c u).lrPos < 0) <;>
+          simp only [setattr_active self u ha, routeTD, torchCat0, redOpt_eq, pure, Except.pure] <;> rfl
+
+/-! ### `LinearHomeostasis.forward` (any scalar type, any batch reduction) -/
+section Homeostasis
+variable {α : Type} [Add α] [Sub α] [Mul α] [Div α] [Neg α] [Zero α] [One α] [Max α] [Min α] [LE α] [DecidableLE α]
+  [LT α] [DecidableLT α] [DecidableEq α] [NatCast α] [TorchFn α]
+
+/-- a unit of `LinearHomeostasis` -/
+abbrev HUnit (α ν : Type) := TUnit (HState α ν) α α ν
+
+/-- the per-sample factor `k = postsyn_receptive((target - rate) / target).mean(dim=-1)` at the parameter position -/
+def homeoK (N : NTOps α ν) (u : HUnit α ν) (tg : Target α ν) (m : Monitor α ν) : List α :=
+  recMeanLast (u.cell.connection.postsyn_receptive (N.div (N.rsub tg m.peek) tg))
+
+/-- attribute and pair `LinearHomeostasis.forward` assigns for a unit, in terms of `Split.homeostasis_split` -/
+def homeoParts (N : NTOps α ν) (u : HUnit α ν) (tg : Target α ν) (m : Monitor α ν) : String × Split.Parts α :=
+  if u.state.param = "weight" then
+    ("weight", Split.homeostasis_split u.state.batchreduce ((homeoK N u tg m).map (· * u.state.plasticity)))
+  else if u.state.param = "bias" then
+    ("bias",
+      ((Split.homeostasis_split u.state.batchreduce ((homeoK N u tg m).map (· * u.state.plasticity))).1.map
+          u.cell.connection.like_bias,
+        (Split.homeostasis_split u.state.batchreduce ((homeoK N u tg m).map (· * u.state.plasticity))).2.map
+          u.cell.connection.like_bias))
+  else
+    ("delay", Split.homeostasis_split u.state.batchreduce ((homeoK N u tg m).map (· * -u.state.plasticity)))
+
+/-- what is assumed of a trained unit: the rate monitor exists under its registered name; `state.param` is one of the
+three names `_build_cell_state` accepts (`argtest.oneof`) -/
+structure HAbs (u : HUnit α ν) (m : Monitor α ν) : Prop where
+  rate : getitem u.monitors "spike_rate" = .ok m
+  param : u.state.param = "weight" ∨ u.state.param = "bias" ∨ u.state.param = "delay"
+
+/-- a COPY of the loop body of the generated `LinearHomeostasis_forward` (`homeo_unfold` proves, by `rfl`, that the
+generated method is the loop over exactly this body, so a change of the body is detected there) -/
+def homeoBody (N : NTOps α ν) (cells : Option (List String)) :
+    Trainer (HState α ν) α α ν → Option (Target α ν) → String → Cell α α ν → HState α ν →
+      List (String × Monitor α ν) → Except Err (Cell α α ν × Option (Target α ν)) :=
+    (fun self target name cell state monitors => (do
+      if (Option.elim cells false (fun cells => (!(strIn name cells)))) then
+        pure (cell, target)
+      else
+        if ((!cell.training) || (!self.training) || (!cell.updater.isSome)) then
+          pure (cell, target)
+        else
+          let target ← (do
+            if target.isNone then
+              if state.target.isNone then
+                throw Err.RuntimeError
+              else
+                let target := state.target
+                pure target
+            else
+              pure target
+            : Except Err _)
+          let t1_ ← getitem monitors "spike_rate"
+          let t2_ ← ntRsub N target t1_.peek
+          let t3_ ← ntDiv N t2_ target
+          let k := (recMeanLast (cell.connection.postsyn_receptive t3_))
+          if (decide (state.param = "weight")) then
+            let k := (bMulScalar k state.plasticity)
+            let cell ← updater_setattr cell "weight" (some (callReduce0 state.batchreduce (bClampMin0 k)), some (callReduce0 state.batchreduce (bClampMax0 k)))
+            pure (cell, target)
+          else
+            if (decide (state.param = "bias")) then
+              let k := (bMulScalar k state.plasticity)
+              let cell ← updater_setattr cell "bias" (some (cell.connection.like_bias (callReduce0 state.batchreduce (bClampMin0 k))), some (cell.connection.like_bias (callReduce0 state.batchreduce (bClampMax0 k))))
+              pure (cell, target)
+            else
+              if (decide (state.param = "delay")) then
+                let k := (bMulScalar k (-state.plasticity))
+                let cell ← updater_setattr cell "delay" (some (callReduce0 state.batchreduce (bClampMin0 k)), some (callReduce0 state.batchreduce (bClampMax0 k)))
+                pure (cell, target)
+              else
+                throw Err.ValueError
+      : Except Err _))
+
+/-- the generated method is the loop over `homeoBody`; the rebound local `target` is dropped at the end -/
+theorem homeo_unfold (N : NTOps α ν) (self : Trainer (HState α ν) α α ν) (target : Option (Target α ν))
+    (cells : Option (List String)) :
+    LinearHomeostasis_forward N self target cells =
+      (match forNamedUnits self target (homeoBody N cells) with
+       | .ok (self, _) => .ok (self, ())
+       | .error e => .error e) := by
+  unfold LinearHomeostasis_forward homeoBody
+  cases forNamedUnits self target _ <;> rfl
+
+/-- the loop body on a unit when the local `target` holds `some tg`: a trained unit gets `homeoParts`, `target` is
+not rebound -/
+theorem homeo_body_some (N : NTOps α ν) (self : Trainer (HState α ν) α α ν) (tg : Target α ν)
+    (cells : Option (List String)) (m : Monitor α ν) (u : HUnit α ν)
+    (h : (selected cells u && active self u) = true → HAbs u m) :
+    homeoBody N cells self (some tg) u.name u.cell u.state u.monitors
+      = .ok (if (selected cells u && active self u) then assign u.cell (homeoParts N u tg m) else u.cell, some tg) := by
+  unfold homeoBody
+  simp only []
+  rw [cells_gate_eq, gate_eq]
+  cases hs : selected cells u with
+  | false => rfl
+  | true =>
+  cases ha : active self u with
+  | false => rfl
+  | true =>
+    obtain ⟨hm, hp⟩ := h (by simp [hs, ha])
+    simp only [Bool.not_true, Bool.false_eq_true, if_false, if_true, Bool.and_self, Option.isNone_some, hm, bind,
+      Except.bind, pure, Except.pure, ntRsub, ntDiv]
+    unfold homeoParts homeoK Split.homeostasis_split
+    rcases hp with hp | hp | hp <;>
+      simp [hp, setattr_active self u ha, bMulScalar, bClampMin0, bClampMax0, callReduce0]
+
+/-- a unit that is not trained in this call is skipped, whatever `target` holds -/
+theorem homeo_body_skip (N : NTOps α ν) (self : Trainer (HState α ν) α α ν) (c : Option (Target α ν))
+    (cells : Option (List String)) (u : HUnit α ν) (h : (selected cells u && active self u) = false) :
+    homeoBody N cells self c u.name u.cell u.state u.monitors = .ok (u.cell, c) := by
+  unfold homeoBody
+  simp only []
+  rw [cells_gate_eq, gate_eq]
+  cases hs : selected cells u with
+  | false => rfl
+  | true =>
+    have ha : active self u = false := by simpa [hs] using h
+    rw [ha]; rfl
+
+/-- a trained unit reached with `target = None` REBINDS `target` to its own default and goes on exactly as if that
+default had been passed in -/
+theorem homeo_body_none (N : NTOps α ν) (self : Trainer (HState α ν) α α ν) (tg0 : Target α ν)
+    (cells : Option (List String)) (u : HUnit α ν) (h : (selected cells u && active self u) = true)
+    (ht : u.state.target = some tg0) :
+    homeoBody N cells self none u.name u.cell u.state u.monitors
+      = homeoBody N cells self (some tg0) u.name u.cell u.state u.monitors := by
+  unfold homeoBody
+  simp only []
+  rw [cells_gate_eq, gate_eq]
+  have hs : selected cells u = true := by
+    cases hs : selected cells u <;> simp [hs] at h ⊢
+  have ha : active self u = true := by simpa [hs] using h
+  simp only [hs, ha, Bool.not_true, Bool.false_eq_true, if_false, if_true, Option.isNone_none, Option.isNone_some, ht,
+    bind, Except.bind, pure, Except.pure]
+
+/-- **`LinearHomeostasis.forward(target)` with an explicit target**: every selected active unit gets
+`cell.updater.<param> = …` with the pair of `Split.homeostasis_split` on `k * plasticity` (`-plasticity` for delays,
+`like_bias` of both parts for biases; the second part is NOT negated — D9), nothing else changes -/
+theorem gen_homeostasis_forward (N : NTOps α ν) (self : Trainer (HState α ν) α α ν) (tg : Target α ν)
+    (cells : Option (List String)) (m : HUnit α ν → Monitor α ν)
+    (h : ∀ u ∈ self.units, (selected cells u && active self u) = true → HAbs u (m u)) :
+    LinearHomeostasis_forward N self (some tg) cells
+      = .ok (stepped self (fun u => selected cells u && active self u) (fun u => homeoParts N u tg (m u)), ()) := by
+  rw [homeo_unfold, forNamedUnits_ok self (some tg) _ (fun u => if (selected cells u && active self u) then
+      assign u.cell (homeoParts N u tg (m u)) else u.cell)]
+  · rfl
+  · intro u hu
+    exact homeo_body_some N self tg cells (m u) u (h u hu)
+
+/-- the first element of a list that is not skipped satisfies `P` (vacuous if all are skipped) -/
+def FirstNotSkipped {A : Type} (skip : A → Bool) (P : A → Prop) : List A → Prop
+  | [] => True
+  | u :: us => if skip u then FirstNotSkipped skip P us else P u
+
+/-- the units of a loop result, dropping the loop-carried locals -/
+def fstE {A : Type} (r : Except Err (A × γ)) : Except Err A :=
+  match r with
+  | .ok x => .ok x.1
+  | .error e => .error e
+
+/-- two runs of a loop from different loop-carried values agree on the units if every skipped unit passes the carried
+value on and the body agrees on the FIRST unit that is not skipped (it returns the same carried value from there on) -/
+theorem forUnitsAux_first {σ ε : Type} (self : Trainer σ α ε ν)
+    (body : Trainer σ α ε ν → γ → String → Cell α ε ν → σ → List (String × Monitor α ν) → Except Err (Cell α ε ν × γ))
+    (c0 c1 : γ) (skip : TUnit σ α ε ν → Bool) (us : List (TUnit σ α ε ν))
+    (hskip : ∀ u ∈ us, skip u = true → ∀ c, body self c u.name u.cell u.state u.monitors = .ok (u.cell, c))
+    (hfirst : FirstNotSkipped skip (fun u => body self c0 u.name u.cell u.state u.monitors
+        = body self c1 u.name u.cell u.state u.monitors) us) :
+    fstE (forUnitsAux self body us c0) = fstE (forUnitsAux self body us c1) := by
+  induction us with
+  | nil => rfl
+  | cons u us ih =>
+    cases hs : skip u with
+    | true =>
+      simp only [FirstNotSkipped, hs, if_true] at hfirst
+      have ih' := ih (fun v hv => hskip v (by simp [hv])) hfirst
+      simp only [forUnitsAux, hskip u (by simp) hs]
+      revert ih'
+      cases forUnitsAux self body us c0 <;> cases forUnitsAux self body us c1 <;> simp [fstE]
+    | false =>
+      simp only [FirstNotSkipped, hs, Bool.false_eq_true, if_false] at hfirst
+      simp only [forUnitsAux, hfirst]
+
+theorem FirstNotSkipped.imp {A : Type} (skip : A → Bool) (P Q : A → Prop) (us : List A)
+    (hpq : ∀ u ∈ us, skip u = false → P u → Q u) (h : FirstNotSkipped skip P us) : FirstNotSkipped skip Q us := by
+  induction us with
+  | nil => trivial
+  | cons u us ih =>
+    cases hs : skip u with
+    | true =>
+      simp only [FirstNotSkipped, hs, if_true] at h ⊢
+      exact ih (fun v hv => hpq v (by simp [hv])) h
+    | false =>
+      simp only [FirstNotSkipped, hs, Bool.false_eq_true, if_false] at h ⊢
+      exact hpq u (by simp) hs h
+
+/-- **`target` is a local of `forward` that the loop rebinds** (`target = state.target`): a call `forward(None)` whose
+first trained unit has the default `tg0` behaves, for EVERY unit, exactly like `forward(tg0)` — the later units'
+own `state.target` is never consulted.  (What the code does; the per-cell default of the docstring would use each
+unit's own `state.target`.) -/
+theorem gen_homeostasis_target_carried (N : NTOps α ν) (self : Trainer (HState α ν) α α ν) (tg0 : Target α ν)
+    (cells : Option (List String))
+    (hfirst : FirstNotSkipped (fun u => !(selected cells u && active self u))
+      (fun u => u.state.target = some tg0) self.units) :
+    LinearHomeostasis_forward N self none cells = LinearHomeostasis_forward N self (some tg0) cells := by
+  have e : ∀ c, (match forNamedUnits self c (homeoBody N cells) with
+        | .ok (self, _) => (.ok (self, ()) : Except Err (Trainer (HState α ν) α α ν × Unit))
+        | .error e => .error e)
+      = (match fstE (forUnitsAux self (homeoBody N cells) self.units c) with
+        | .ok us => .ok ({ self with units := us }, ())
+        | .error e => .error e) := by
+    intro c
+    unfold forNamedUnits
+    cases forUnitsAux self (homeoBody N cells) self.units c <;> rfl
+  rw [homeo_unfold, homeo_unfold, e, e,
+    forUnitsAux_first self (homeoBody N cells) none (some tg0) (fun u => !(selected cells u && active self u))]
+  · intro u _ hs c
+    exact homeo_body_skip N self c cells u (by revert hs; cases (selected cells u && active self u) <;> simp)
+  · refine FirstNotSkipped.imp _ _ _ _ (fun u _ hs ht => ?_) hfirst
+    exact homeo_body_none N self tg0 cells u (by revert hs; cases (selected cells u && active self u) <;> simp) ht
+
+/-- `forward(None)` raises `RuntimeError` when the first trained unit has no default either -/
+theorem gen_homeostasis_no_target (N : NTOps α ν) (self : Trainer (HState α ν) α α ν) (cells : Option (List String))
+    (u : HUnit α ν) (us : List (HUnit α ν)) (hu : self.units = u :: us)
+    (h : (selected cells u && active self u) = true) (ht : u.state.target = none) :
+    LinearHomeostasis_forward N self none cells = .error .RuntimeError := by
+  rw [homeo_unfold]
+  unfold forNamedUnits
+  rw [hu]
+  have hs : selected cells u = true := by
+    cases hs : selected cells u <;> simp [hs] at h ⊢
+  have ha : active self u = true := by simpa [hs] using h
+  have : homeoBody N cells self none u.name u.cell u.state u.monitors = .error .RuntimeError := by
+    unfold homeoBody
+    simp only []
+    rw [cells_gate_eq, gate_eq]
+    simp only [hs, ha, Bool.not_true, Bool.false_eq_true, if_false, if_true, Option.isNone_none, ht,
+      bind, Except.bind, pure, Except.pure, throw, throwThe, MonadExceptOf.throw]
+  simp only [forUnitsAux, this]
+
+end Homeostasis
+
+/-! ### the kernel trainers' pair in terms of `Model/Split.lean` (any scalar type, any batch reduction, any kernels) -/
+section KernelSplit
+variable {α : Type} [Add α] [Neg α] [Zero α] [Max α] [Min α]
+
+/-- the pair the three kernel trainers assign to `cell.updater.weight` / `.delay`, as a function of the SIGNED kernel
+outputs `dpost`, `dpre` (receptive format, `none` = `NaN`), is `Split.kernel_split` — the function
+`Props/C09.lean :: kernel_split_nets_sum` is about -/
+theorem gen_kernel_parts_split (red : List α → α) (dpost dpre : Rec (Option α)) :
+    ((some ((callReduce0 red (recNansumLast (recClampMin0 dpost))) + (callReduce0 red (recNansumLast (recClampMin0 dpre)))),
+      some (-((callReduce0 red (recNansumLast (recClampMax0 dpost))) + (callReduce0 red (recNansumLast (recClampMax0 dpre)))))) :
+        Split.Parts α)
+      = Split.kernel_split red dpost dpre := by
+  simp only [callReduce0, recNansumLast, recClampMin0, recClampMax0, Split.kernel_split, List.map_map]
+  rfl
+
+end KernelSplit
+
+/-! ### non-vacuity: the abstraction hypotheses are satisfiable for every model datum -/
+
+/-- for any hyperparameters, reduction, delay and spike trains there is an active unit satisfying `DAAbs`
+(monitors holding the lifted folds, identity reshapes) -/
+example (c : DCfg) (r : Red) (d : ℝ) (bt : List (List Syn)) (t : ℕ) :
+    ∃ (self : Trainer (DAState ℝ) ℝ (Option ℝ) (Rec (Option ℝ))) (u : DAUnit (Rec (Option ℝ))),
+      self.units = [u] ∧ active self u = true ∧ DAAbs u c r d bt t := by
+  let u : DAUnit (Rec (Option ℝ)) :=
+    { name := "cell"
+      cell := { training := true
+                connection := { postsyn_receptive := id, presyn_receptive := id, delay := some d, delayedby := some 1,
+                                selector := none, like_bias := id }
+                updater := some [] }
+      state := ⟨c.lrPos, c.lrNeg, c.tcPos, c.tcNeg, reduce r⟩
+      monitors := [("spike_post", ⟨lift bt (fun s => sinceLast c.dt s.post t), fun _ _ => []⟩),
+                   ("spike_pre", ⟨lift bt (fun s => sinceLast c.dt s.pre t), fun _ _ => []⟩)] }
+  exact ⟨⟨true, [u]⟩, u, rfl, rfl, ⟨⟨_, rfl, rfl⟩, ⟨_, rfl, rfl⟩,
+    rfl, rfl, rfl, rfl, rfl, rfl⟩⟩
+
+/-- … and one satisfying `KAbs` for any point-wise half kernels -/
+example (dt : ℝ) (r : Red) (kpost kpre : ℝ → ℝ) (d : ℝ) (bt : List (List Syn)) (t : ℕ) :
+    ∃ (self : Trainer (KState ℝ Unit) ℝ (Option ℝ) (Rec (Option ℝ))) (u : KUnit (Rec (Option ℝ)) Unit),
+      self.units = [u] ∧ active self u = true ∧ KAbs u dt r kpost kpre d bt t := by
+  let u : KUnit (Rec (Option ℝ)) Unit :=
+    { name := "cell"
+      cell := { training := true
+                connection := { postsyn_receptive := id, presyn_receptive := id, delay := some d, delayedby := some 1,
+                                selector := none, like_bias := id }
+                updater := some [] }
+      state := { kernel_post := fun X _ => pointwise kpost X, kernel_pre := fun X _ => pointwise kpre X,
+                 kernel_post_kwargs := [], kernel_pre_kwargs := [], kernel_post_tensor_kwargs := ⟨[]⟩,
+                 kernel_pre_tensor_kwargs := ⟨[]⟩, delayed := false, tolerance := 0, batchreduce := reduce r }
+      monitors := [("spike_post", ⟨lift bt (fun s => sinceLast dt s.post t), fun _ _ => []⟩),
+                   ("spike_pre", ⟨lift bt (fun s => sinceLast dt s.pre t), fun _ _ => []⟩)] }
+  exact ⟨⟨true, [u]⟩, u, rfl, rfl, ⟨⟨_, rfl, rfl⟩, ⟨_, rfl, rfl⟩,
+    rfl, fun _ => rfl, fun _ => rfl, rfl⟩⟩
+
 end InfernoVerif.DSTDP.GlueProg
